@@ -3,7 +3,8 @@
   builders), eval_structure/evaluable_architecture.py (LayerMapping), rule_check/rule_matcher.py
   (LayerRuleMatcher) and rule_check/layer_rule_violation_detector.py (lenient detector), plus the
   layer variant of the message generator — all after the `fix:` commits 71a05f3, c016918, 9704b26,
-  6db7459 and 1df0d8a.
+  6db7459 and 1df0d8a, and after the repair of `LayerRuleMatcher._update_layer_mapping` (a module assigned to two
+  layers raises `LayerMismatch`).
 -/
 import PtaModel.Rule
 namespace Pta
@@ -64,9 +65,18 @@ def LArch.get (a : LArch) (n : Str) : Except ErrKind (List Filter) :=
 /-- the regex-free mapping handed to the detector: layer name ↦ listed module identifiers -/
 abbrev LayerMap := List (Str × List Str)
 
+/-- the check added to `LayerRuleMatcher._update_layer_mapping` (repair of the "module assigned to two layers" defect,
+    where the layer of such a module depended on the order in which the layers were defined): no identifier is listed by
+    two entries that carry different layer names; otherwise `LayerMismatch` is raised (see `matchLayerRule`).
+    Listing an identifier twice in the SAME layer is not an error. -/
+def LayerMap.consistent (m : LayerMap) : Bool :=
+  m.all fun l1 => m.all fun l2 => l1.1 == l2.1 || !(l1.2.any fun id => l2.2.contains id)
+
 /-- `_get_layer_or_none` / `_get_layer`: first entry (in dict order) listing exactly this identifier.
     The dict `_module_filter_mapping` keeps one entry per identifier; on duplicates across layers the
-    later layer overwrites the value but the key keeps its first position. -/
+    later layer overwrites the value but the key keeps its first position. On a `consistent` mapping — the only
+    mappings the detector and the message generator get to see since the repair — all entries listing an identifier
+    carry the same layer name, so which of them is taken no longer matters. -/
 def LayerMap.layerOfListed (m : LayerMap) (id : Str) : Option Str :=
   ((m.filter fun l => l.2.contains id).getLast?).map (·.1)
 
@@ -242,6 +252,8 @@ def matchLayerRule (mt : Str → Str → Bool) (g : PGraph Str) (a : LArch) (b :
   | .ok (expl, other) =>
     let converted := ((subjects ++ objects).filter (·.isRegex)).map (·.id)
     let m := updateLayerMap mt g.nodes a converted
+    -- `_get_rule_violation_detector` → `_update_layer_mapping`: raises after the queries, before the detector runs
+    if !m.consistent then .err .layerMismatch else
     match detectL m b importRule expl other (objs.map Filter.toMod) with
     | .error k => .err k
     | .ok v =>
